@@ -121,6 +121,7 @@ inductive DOp where
   | cmd (c : Cmd)
   | query (id : Id)
   | junk (n : Name) (d : Bytes)
+  | pushFail (b : Bundle)      -- Push while the part file cannot be written
 
 def parsePush (s : String) : Option Bundle :=
   match s.splitOn ":" with
@@ -130,6 +131,7 @@ def parsePush (s : String) : Option Bundle :=
 def parseDesc (s : String) : Option DOp :=
   match s.splitOn ":" with
   | "push" :: _ => (parsePush s).map fun b => .cmd (.op (.push b))
+  | "pushfail" :: rest => (parsePush (":".intercalate ("push" :: rest))).map .pushFail
   | ["update", i, p, e, pr] => do
     some (.cmd (.op (.update (← parseId i) (p == "1") (← e.toNat?) (parseProps pr))))
   | ["delete", i] => (parseId i).map fun i => .cmd (.op (.delete i))
@@ -150,6 +152,7 @@ def opKind : DOp → String
   | .cmd .reopen => "reopen"
   | .query _ => "query"
   | .junk .. => "junk"
+  | .pushFail _ => "push-failed-write"
 
 /-! ### Driver state -/
 
@@ -308,6 +311,7 @@ def learn (d : DState) (bs : List Bundle) : DState :=
 def expectedRes (d : DState) : DOp → String
   | .cmd (.op (.update id ..)) => if (get id d.spec).isSome then "ok" else "notfound"
   | .query id => if (get id d.spec).isSome then "found" else "notfound"
+  | .pushFail b => if specStep d.spec (.op (.push b)) == d.spec then "ok" else "err"
   | _ => "ok"
 
 def handleOp (d : DState) (desc res : String) (dump : List String) : DState × String :=
@@ -315,12 +319,14 @@ def handleOp (d : DState) (desc res : String) (dump : List String) : DState × S
   | some op, some g =>
     let d := match op with
       | .cmd (.op (.push b)) => learn d [b]
+      | .pushFail b => learn d [b]
       | _ => d
     let kind := opKind op
     let (model', spec') := match op with
       | .cmd c => (step d.model c, specStep d.spec c)
       | .query _ => (d.model, d.spec)
       | .junk n bytes => ({ d.model with files := put n bytes d.model.files }, d.spec)
+      | .pushFail _ => (d.model, d.spec)   -- not acknowledged (or ignored): nothing may change
     let d' := { d with model := model', spec := spec' }
     if res != expectedRes d op then (d', s!"specfail result-after-{kind} res={res} expected={expectedRes d op}")
     else
